@@ -39,7 +39,8 @@ def run(ck):
     # ---- 1+2: witnesses and generated stream, both real backends, three spellings
     cfg = c02.stream_cfg(ck)
     n = 240 if ck.thorough else 60
-    progs = [(k, p, 'prefix') for k, p in sorted(lang_findings.WITNESSES.items())]
+    WIT = dict(lang_findings.WITNESSES, **lang_findings.ENGINE_WITNESSES)
+    progs = [(k, p, 'prefix') for k, p in sorted(WIT.items())]
     for i in range(n):
         g = progen.Gen(random.Random(ck.seed * 7919 + i), cfg)
         p = g.gen_program()
@@ -59,7 +60,7 @@ def run(ck):
     # hypotheses of C01_backends_agree evaluated on the stream: se_program (extracted) must hold for every generated program
     # while the argument-order finding is open (the generator is configured not to produce two effectful arguments)
     nv = ck.nvref('lang')
-    gen_only = [(pid, p) for pid, p, _ in progs if pid not in lang_findings.WITNESSES]
+    gen_only = [(pid, p) for pid, p, _ in progs if pid not in WIT]
     se = vlib.run_lines(nv, ['se 0 ' + progen.to_sexp(p) for _, p in gen_only], timeout=600)
     ck.extra['theorem_hypotheses'] = dict(se_program_true=sum(x.strip() == '1' for x in se), se_program_false=sum(x.strip() == '0' for x in se),
                                           generator_multi_effect_args=cfg.multi_effect_args)
@@ -70,7 +71,7 @@ def run(ck):
         ck.extra['classes']['%s/%s' % (vm['cls'], nat['cls'])] += 1
         ck.extra['styles'][style] += 1
         ck.count(src, d is not None and len(vm['out']) > 0)
-        iswit = pid in lang_findings.WITNESSES
+        iswit = pid in WIT
         key = pid if iswit else 'c01:gen:' + pid
         if d is None:
             # one backend did not produce a run: a front-end rejection is outside C01; anything else is a C04 matter, except
